@@ -24,7 +24,7 @@ def deref(v):
 def dec_json(d, key='num', tag='t'):
     if is_sym(d.m):
         raise ModelError('rendering a symbolic decimal')
-    return {tag: key, 'm': str(d.m), 's': d.s}
+    return {tag: key, 'm': ('-0' if (d.m == 0 and d.src == 'negzero') else str(d.m)), 's': d.s}
 
 
 def ast_json(v):
@@ -79,7 +79,7 @@ def value_json(v, model=None):
             if model is None:
                 raise ModelError('symbolic decimal without model')
             m = model.eval(m, model_completion=True).as_long()
-        return {'t': 'num', 'm': str(m), 's': d.s}
+        return {'t': 'num', 'm': ('-0' if (m == 0 and d.src == 'negzero') else str(m)), 's': d.s}
     if n == 'Bool':
         b = v.f[0]
         if is_sym(b):
@@ -109,7 +109,7 @@ def value_json(v, model=None):
 def value_from_json(j):
     t = j['t']
     if t == 'num':
-        return Enum('Value', 1, 'Number', (Dec(int(j['m']), int(j['s'])),))
+        return Enum('Value', 1, 'Number', (Dec(int(j['m']), int(j['s']), 'negzero' if j['m'] == '-0' else None),))
     if t == 'bool':
         return Enum('Value', 2, 'Bool', (bool(j['v']),))
     if t == 'str':
